@@ -1403,6 +1403,18 @@ class _Run:
         if tg == 'g' and fn[1] in ('builtins.list',) and len(args) == 1 and not kws and tag(args[0]) == 'loopres' \
                 and args[0][2] == YIELDED:
             return args[0]              # list(generator()) with the generator expanded
+        if tg == 'g' and fn[1] in ('numpy.unique', 'builtins.len', 'numpy.sum', 'numpy.isnan', 'numpy.nanmin', 'numpy.nanmax',
+                                   'numpy.nansum', 'numpy.count_nonzero', 'numpy.min', 'numpy.max') and len(args) == 1 and not kws:
+            r = args[0]
+            while (tag(r) == 'vals' and tag(r[1]) in ('col', 'mask', 'cols', 'rows', 'index')) or \
+                    (tag(r) == 'mcall' and r[2] == 'to_numpy' and not r[3] and not r[4] and tag(r[1]) in ('col', 'mask', 'cols', 'rows', 'index')):
+                r = r[1]            # the values of a column are the column, as far as these are concerned
+            args = (r,)
+        if tg == 'g' and fn[1] in ('numpy.any', 'numpy.all') and len(args) == 1 and not kws:
+            r = args[0]
+            while tag(r) == 'vals' or (tag(r) == 'mcall' and r[2] in ('to_numpy', 'to_list') and not r[3]):
+                r = r[1]
+            args = (r,)
         if tg == 'g' and fn[1] in ('numpy.logical_and', 'numpy.logical_or') and len(args) == 2 and not kws:
             return T.mk_bin('&' if fn[1].endswith('and') else '|', _truthy_array(args[0]), _truthy_array(args[1]))
         if tg == 'g' and fn[1] == 'builtins.len' and len(args) == 1 and not kws:
@@ -1552,6 +1564,12 @@ class _Run:
             return C(recv[1].join(a[1] for a in args[0][1]))
         # aliases and keyword spellings of pandas methods
         name = {'isnull': 'isna', 'notnull': 'notna', 'tolist': 'to_list'}.get(name, name)
+        if name in ('any', 'all') and not args and not kws and tag(recv) not in ('g', 'dict', 'list', 'tuple'):
+            # mask.any() is np.any(mask) (one spelling for the rules): also for the values of the mask
+            r = recv
+            while tag(r) == 'vals' or (tag(r) == 'mcall' and r[2] in ('to_numpy', 'to_list') and not r[3]):
+                r = r[1]
+            return ('call', ('g', f'numpy.{name}'), (r,), ())
         if name == 'copy' and not args and dict(kws) == {'deep': T.TRUE} and tag(recv) not in ('dict', 'list', 'g'):
             return ('call', ('g', 'copy.deepcopy'), (recv,), ())        # frame.copy(deep=True) is what deepcopy(frame) does
         if name == 'drop' and not args:
